@@ -382,11 +382,11 @@ Proof.
     cbn [wf_seg st_quote st_delim seg_term] in *. cbn [wfc_seg] in Hc.
     apply andb_true_iff in Hc. destruct Hc as [Hq Hg].
     apply andb_true_iff in Hwf. destruct Hwf as [H1 _]. rewrite H1. cbn [andb].
-    destruct m; try exact Hq.
+    destruct m; try reflexivity.
     rewrite <- T_delims in Hg. destruct (pick_delim_some _ _ Hg) as (d & Ed).
     unfold canon_delim. rewrite Ed.
     destruct (pick_delim_spec _ _ _ _ Ed T_delims_ok) as [D1 D2].
-    apply andb_true_iff in D2. destruct D2 as [D2 D3]. rewrite D1, D2, D3, Hq. reflexivity.
+    apply andb_true_iff in D2. destruct D2 as [D2 D3]. rewrite D1, D2, D3. reflexivity.
 Qed.
 
 Lemma wf_go_restyle sepc : forall l first prev,
